@@ -1,5 +1,6 @@
 SPECIFICATION TSpec
 CONSTANT Which = "C17"
+CONSTANT TinyLen = 0
 CONSTANT SmallLen = 0
 CONSTANT AsBuilt = {}
 CONSTANT MaxLen = 3
